@@ -92,6 +92,8 @@ class World:
             return ('bool', False) if body.local_ty(t['dest']['l']) == 'bool' else ('opaque', 'tracing')
         if name == 'core::mem::drop' or name.startswith('core::ptr::drop_in_place'):
             return UNIT
+        if name in ('core::future::ready::ready', 'core::future::ready', 'futures_util::future::ready::ready', 'futures_util::future::ready') and args:
+            return ('future', 'ready', args[0])
         # views / owned copies of a symbolic string are the same text
         if args and seg in ('as_str', 'as_ref', 'borrow', 'deref', 'to_string', 'to_owned', 'clone', 'into', 'from', 'into_owned', 'as_mut_str', 'into_boxed_str', 'into_string') \
                 and (name.startswith(('alloc::string::String::', 'core::str::', 'alloc::str::', 'alloc::borrow::Cow::')) or
